@@ -296,6 +296,11 @@ def gen_case(rng, kind=None):
     else:
         a = None
     top_pairs = [[N.s_str('before'), N.s_int(0)]]
+    if rng.random() < 0.15:
+        # an entry with a key that is no scalar in front of the attribute:
+        # positions in the mapping and positions among the scalar keys differ
+        top_pairs.insert(rng.randint(0, 1), [
+            ['seq', [N.s_str('x'), N.s_str('y')], S.TAG_SEQ], N.s_int(1)])
     if a is not None:
         top_pairs.append([N.s_str('items'), a])
     top_pairs.append([N.s_str('after'), N.s_str('z')])
@@ -616,11 +621,57 @@ def judge_isolation(ctx, case):
         ctx.case(['isolation', name, case], True)
 
 
+def judge_shared_item(ctx, case):
+    """seq_attribute_to_map / index_attribute_to_map strip the key attribute
+    from the items; an item node that is ALSO the value of another attribute
+    (one node object, as for an object referenced twice when dumping) must
+    look the same there afterwards."""
+    top, attr, ka, va = case['top'], case['attr'], case['ka'], case['va']
+    for name in ('seq_to_map', 'index_to_map'):
+        ynode = N.mk(top)
+        node = yatiml.Node(ynode)
+        if not node.has_attribute(attr):
+            return
+        coll = node.get_attribute(attr).yaml_node
+        if isinstance(coll, yaml.SequenceNode):
+            items = list(coll.value)
+        elif isinstance(coll, yaml.MappingNode):
+            items = [v for _, v in coll.value]
+        else:
+            return
+        items = [x for x in items if isinstance(x, yaml.MappingNode)]
+        if not items:
+            return
+        shared = items[-1]
+        node.set_attribute('elsewhere', shared)
+        before = N.view(shared)
+        try:
+            if name == 'seq_to_map':
+                node.seq_attribute_to_map(attr, ka, va, False)
+            else:
+                node.index_attribute_to_map(attr, ka, va)
+        except yatiml.SeasoningError:
+            pass
+        except Exception:
+            continue
+        ctx.count('shared_item_cases')
+        after = N.view(node.get_attribute('elsewhere').yaml_node)
+        if after != before:
+            ctx.violation(
+                'C15 %s item-referenced-elsewhere-modified' % name,
+                '%s changed an item node that is also the value of another '
+                'attribute: %r -> %r' % (name, before, after),
+                dict(case, transform='shared_item'))
+            return
+    ctx.case(['shared_item', case], True)
+
+
 def run_case(ctx, case):
     for name in TRANSFORMS:
         judge_single(ctx, case, name)
     judge_inverse(ctx, case)
     judge_isolation(ctx, case)
+    judge_shared_item(ctx, case)
 
 
 def shard(ctx):
@@ -645,6 +696,10 @@ def replay(ctx, case):
         judge_dash(ctx, case['keys'])
         return
     t = case.get('transform')
+    if t == 'shared_item':
+        judge_shared_item(ctx, {k: v for k, v in case.items()
+                                if k != 'transform'})
+        return
     if t == 'isolation':
         judge_isolation(ctx, {k: v for k, v in case.items()
                               if k != 'transform'})
